@@ -1253,7 +1253,7 @@ def main(chk):
         "first run of every header uses the ASan+UBSan build",
         "only expressions whose every operand and intermediate (after the usual arithmetic conversions) fits in int",
     ]
-    nb = chk.pick(80, 1000)
+    nb = chk.pick(320, 1000)
     pairs = all_pairs()
     chk.rng.shuffle(pairs)
     cases = []
